@@ -586,6 +586,73 @@ func main() {
 		}
 	}
 	r.Set("two_call_sessions", nSess)
+	// 5. Present-time sessions. A caller that leaves Options.Now unset asks for "the time of this
+	// call". One Options value (Now unset) is used for two calls: the first while a short-lived
+	// signing certificate is valid, the second - on the same value, and on a validator built from it -
+	// after real time has passed its NotAfter. The second call must be refused; a verifier that
+	// remembers the time of an earlier call accepts it. (This is the one place where real time is
+	// allowed to pass: about three seconds, in parallel with everything else. If the machine stalls so
+	// long that the certificate is already expired at the first call, the case gives no verdict.)
+	for _, pe := range []string{"verify.Endorsement", "verify.EndorsementProto", "SNPValidateFunc-built-after-a-direct-call"} {
+		pe := pe
+		id := "present-time ep=" + pe + " first=while-valid second=after-expiry"
+		jobs = append(jobs, func() {
+			r.Case(id, func() string {
+				present := time.Now().UTC()
+				pa, err := fx.NewAuthorityWithSibling(present.Add(-time.Hour), "c01-present")
+				if err != nil {
+					mc.Fatal("%v", err)
+				}
+				notAfter := time.Now().Add(2 * time.Second).Truncate(time.Second).Add(time.Second)
+				t := &x509.Certificate{SerialNumber: big.NewInt(7), Subject: pa.SiblingCert.Subject, NotBefore: present.Add(-time.Minute), NotAfter: notAfter,
+					KeyUsage: x509.KeyUsageDigitalSignature, SignatureAlgorithm: x509.SHA256WithRSAPSS}
+				der, err := x509.CreateCertificate(rand.Reader, t, pa.RootCert, &pa.SiblingKey.PublicKey, pa.RootKey)
+				if err != nil {
+					mc.Fatal("short-lived certificate: %v", err)
+				}
+				g := proto.Clone(signed).(*epb.VMGoldenMeasurement)
+				g.Cert = der
+				pl, _ := proto.Marshal(g)
+				v := mk("short-lived", pl, pss(pa.SiblingKey, crypto.SHA256, rsa.PSSSaltLengthEqualsHash, pl))
+				opts := &verify.Options{RootsOfTrust: pa.Roots()} // Now unset
+				call := func() error {
+					switch pe {
+					case "verify.Endorsement":
+						return verify.Endorsement(v.bin, opts)
+					case "verify.EndorsementProto":
+						return verify.EndorsementProto(v.end, opts)
+					default:
+						return verify.SNPValidateFunc(opts)(att.Snp(m1, nil), v.bin)
+					}
+				}
+				var e1, e2 error
+				pan, _ := mc.Guard(func() {
+					if pe == "SNPValidateFunc-built-after-a-direct-call" {
+						e1 = verify.Endorsement(v.bin, opts)
+					} else {
+						e1 = call()
+					}
+				})
+				firstAt := time.Now()
+				r.Eval()
+				if pan || e1 != nil || !firstAt.Before(notAfter) {
+					r.Outcome("present-time:no-verdict")
+					return "no verdict"
+				}
+				time.Sleep(time.Until(notAfter.Add(1200 * time.Millisecond)))
+				pan, _ = mc.Guard(func() { e2 = call() })
+				r.Eval()
+				r.Validated()
+				if !pan && e2 == nil {
+					r.Violation(pe+"/accepted-after-expiry-with-unset-Now", id,
+						fmt.Sprintf("%s with Options.Now unset accepted an endorsement whose certificate expired at %s, %.1fs before the call; the same Options value had verified it %.1fs earlier, while it was valid", pe, notAfter.Format(time.RFC3339), time.Since(notAfter).Seconds(), time.Since(firstAt).Seconds()), nil)
+				}
+				r.Nontrivial(id)
+				r.Outcome("present-time:" + map[bool]string{true: "accept", false: "reject"}[e2 == nil])
+				return fmt.Sprint(e2 == nil)
+			})
+		})
+	}
 	r.Set("signature_bits", len(sig)*8)
 	r.Set("payload_bits", len(payload)*8)
 	r.Set("structural_variants", len(structural))
